@@ -327,7 +327,7 @@ def checks(h):
                                     "pass": st.sampled_from(PASSES)})
     s_pass_corpus = st.fixed_dictionaries({"kind": st.just("apply_to_clone"), "mod": st.none(),
                                            "chunk": st.integers(0, 5000), "pass": st.sampled_from(PASSES)})
-    n = h.scale(30, 1800)
+    n = h.scale(30, 400)
     h.hyp("clone_op", s_op, lambda r: run(h, r), n, 1)
     h.hyp("clone_into", s_into, lambda r: run(h, r), n * 2, 2)
     h.hyp("apply_to_clone_gen", s_pass, lambda r: run(h, r), max(10, n // 3), 3)
